@@ -244,6 +244,33 @@ func runC08(c *ctx) error {
 		fmt.Fprintf(&b, "  - unknown_kind_of_step: %s\n", nb)
 		src := b.String()
 		desc := map[string]any{"document": src}
+		// the same plugins as one JSON object through the stand-alone decoder: object key order is plugin order
+		{
+			var ob strings.Builder
+			ob.WriteString("{")
+			for pi, ps := range plugins {
+				if pi > 0 {
+					ob.WriteString(",")
+				}
+				kb, _ := json.Marshal(ps)
+				ob.Write(kb)
+				ob.WriteString(`:{"opt":1}`)
+			}
+			ob.WriteString("}")
+			var pl pipeline.Plugins
+			c.res.OracleChecks++
+			if err := json.Unmarshal([]byte(ob.String()), &pl); err != nil {
+				c.res.Fail(core.OracleFailure{What: "Plugins.UnmarshalJSON fails on plugins written as one JSON object", Input: ob.String(), Got: err.Error()})
+			} else {
+				var got []string
+				for _, x := range pl {
+					got = append(got, x.Source)
+				}
+				if !reflect.DeepEqual(got, plugins) {
+					c.res.Fail(core.OracleFailure{What: "plugins written as one JSON object do not come out of Plugins.UnmarshalJSON in document order", Input: ob.String(), Got: fmt.Sprint(got), Want: fmt.Sprint(plugins)})
+				}
+			}
+		}
 		p, err := pipeline.Parse(strings.NewReader(src))
 		if p == nil || (err != nil && !warning.Is(err)) {
 			c.res.Fail(core.OracleFailure{What: "order document does not parse", Input: desc, Got: fmt.Sprint(err)})
